@@ -7,6 +7,11 @@
  * Output bits of the mask: LATITUDE 1<<7, LONGITUDE 1<<8, AZIMUTH 1<<9, DISTANCE 1<<10, DISTANCE_IN 1<<11,
  * REDUCEDLENGTH 1<<12, GEODESICSCALE 1<<13, AREA 1<<14, LONG_UNROLL 1<<15 (Geodesic.hpp), each OR-ed with capability bits. */
 /*@ ghost */
+/* what a caller that replaces the call by this contract can say about HOW it called (GenDirect: "DISTANCE_IN is supplied automatically") */
+unsigned g_GP_calls, g_GP_outmask, g_GP_caps; _Bool g_GP_arcmode, g_GP_can; double g_GP_s12_a12;
+/*@ ghost-init */
+g_GP_calls = 0;
+/*@ ghost */
 #define GP_CAN (self->_caps != 0U && (arcmode || (self->_caps & (0xFF80U & DISTANCE_IN)) != 0U))
 #define GP_ON(bit) (GP_CAN && (outmask & self->_caps & 0xFF80U & (bit)) != 0U)
 /*@ clause pre.series_line src=call-site */
@@ -17,6 +22,11 @@ __CPROVER_requires(self->_f1 > 0.0 && !isinf(self->_f1) && self->tiny_ > 0.0)
 /*@ clause frame src=property props=C12,C14 */
 __CPROVER_assigns(GP_ON(LATITUDE): *lat2; GP_ON(LONGITUDE): *lon2; GP_ON(AZIMUTH): *azi2; GP_ON(DISTANCE): *s12;
                   GP_ON(REDUCEDLENGTH): *m12; GP_ON(GEODESICSCALE): *M12; GP_ON(GEODESICSCALE): *M21; GP_ON(AREA): *S12)
+/*@ clause frame.ghost src=ghost only=replace-ghost */
+__CPROVER_assigns(g_GP_calls, g_GP_outmask, g_GP_caps, g_GP_arcmode, g_GP_can, g_GP_s12_a12)
+/*@ clause post.ghost src=ghost only=replace-ghost */
+__CPROVER_ensures(g_GP_calls == __CPROVER_old(g_GP_calls) + 1 && g_GP_outmask == outmask && g_GP_caps == self->_caps && g_GP_arcmode == arcmode &&
+                  g_GP_can == (GP_CAN ? 1 : 0) && VERIF_SAME_D(g_GP_s12_a12, s12_a12))
 /*@ clause post.nan_if_cannot src=property props=C12,C13 */
 __CPROVER_ensures(GP_CAN || isnan(__CPROVER_return_value))
 /*@ clause post.arc_returned src=header props=C12 */
